@@ -216,3 +216,100 @@ def cas1(ctx, lib, roles):
             n += 1
             ctx.ok("CAS-1", "%s|ci=%s,x=%s|%s" % (b.path, ci, v, ",".join("%s=%d" % kv for kv in sorted(fl.flags.items()))), {"flag": want}, b.loc())
     ctx.floor("CAS-1", "abstract paths of RegExp::fmt", n, 48)
+
+
+# ----------------------------------------------------------------------------- origin-based view of str::replace passes
+
+def iter_elements(o, depth=0):
+    """Elements (python chars/ints/strs) of a constant iterable given as an origin tree, or None."""
+    from sa import local
+    if depth > 12 or not isinstance(o, tuple):
+        return None
+    o = local.peel(o)
+    k = o[0]
+    if local.is_const(o):
+        v = local.const_value(o)
+        return list(v) if isinstance(v, (list, tuple)) else None
+    if k == "agg" and o[1] == "array":
+        vals = [local.const_value(local.peel(x)) for x in o[3]]
+        return vals if all(v is not None for v in vals) else None
+    if k == "agg" and o[1] == "adt" and o[2] and o[2].startswith("std::ops::Range"):
+        vals = [local.const_value(local.peel(x)) for x in o[3][:2]]
+        if all(isinstance(v, str) and len(v) == 1 for v in vals):
+            a, b = ord(vals[0]), ord(vals[1]) + (1 if "RangeInclusive" in o[2] else 0)
+            return [chr(x) for x in range(a, b) if not (0xD800 <= x <= 0xDFFF)] if b - a <= 4096 else None
+        return None
+    if k == "cast":
+        return iter_elements(o[1], depth + 1)
+    if k == "call":
+        seg = o[1].rsplit("::", 1)[-1]
+        if seg in ("into_iter", "iter", "copied", "cloned", "by_ref") and o[2]:
+            return iter_elements(o[2][0], depth + 1)
+        if seg == "chain" and len(o[2]) == 2:
+            a, b = iter_elements(o[2][0], depth + 1), iter_elements(o[2][1], depth + 1)
+            return a + b if a is not None and b is not None else None
+        if seg == "rev" and o[2]:
+            a = iter_elements(o[2][0], depth + 1)
+            return list(reversed(a)) if a is not None else None
+        if seg == "new" and "RangeInclusive" in o[1] and len(o[2]) == 2:
+            vals = [local.const_value(local.peel(x)) for x in o[2]]
+            if all(isinstance(v, str) and len(v) == 1 for v in vals):
+                return [chr(x) for x in range(ord(vals[0]), ord(vals[1]) + 1) if not (0xD800 <= x <= 0xDFFF)]
+    return None
+
+
+def loop_item_source(o):
+    """If origin `o` is the element yielded by `next()` of an iterator, return the iterator's origin."""
+    from sa import local
+    for x in local.walk(o):
+        if x[0] == "call" and x[1].endswith("::next") and x[2]:
+            return x[2][0]
+    return None
+
+
+def replace_sites(lib, body):
+    """Every str::replace call of `body`: which characters it can rewrite and to what (resolved through loops over constant iterables)."""
+    from sa import guards as G, local
+    from sa.facts import callee_name
+    fi = G.FnInfo.of(body)
+    d = fi.defs
+    out = []
+    for bi, t in body.calls():
+        n = callee_name(t) or ""
+        if not n.endswith("<impl str>::replace") or len(t["args"]) != 3:
+            continue
+        pat = d.operand(t["args"][1])
+        rep = d.operand(t["args"][2])
+        chars = None
+        item_src = None
+        pv = local.const_value(local.peel(pat))
+        if isinstance(pv, str) and len(pv) == 1:
+            chars = [pv]
+        elif isinstance(pv, list) and all(isinstance(x, str) and len(x) == 1 for x in pv):
+            chars = list(pv)
+        else:
+            arr = iter_elements(pat)
+            if arr is not None and all(isinstance(x, str) and len(x) == 1 for x in arr):
+                chars = list(arr)          # array literal passed by value
+            else:
+                item_src = loop_item_source(pat)
+                if item_src is not None:
+                    els = iter_elements(item_src)
+                    if els is not None and all(isinstance(x, str) and len(x) == 1 for x in els):
+                        chars = list(els)
+        rv = local.const_value(local.peel(rep))
+        if isinstance(rv, str):
+            repk = ("const", rv)
+        else:
+            shown = local.show(rep)
+            src2 = loop_item_source(rep)
+            same_item = item_src is not None and src2 is not None and local.show(src2) == local.show(item_src)
+            if same_item and any(x[0] == "call" and x[1].endswith("<impl char>::escape_unicode") for x in local.walk(rep)) \
+                    and not any(x[0] == "call" and x[1].endswith("::replace") for x in local.walk(rep)):
+                repk = ("escape_unicode_of_item",)
+            else:
+                repk = ("unknown", shown[:120])
+        gs = [g for g in G.guards(body, bi) if not g["loop"]]
+        out.append({"block": bi, "line": t.get("line"), "chars": chars, "rep": repk, "guards": gs,
+                    "in_loop": bool(fi.cfg.loops_containing(bi))})
+    return out
